@@ -307,7 +307,9 @@ def zero_marker_kept_rule(P, rep, rid):
     del_loops = {rc.loop_of(c.block) for c in rc.calls('block_state_set') if rc.const_of(c.ops[1]) is not None and rc.const_of(c.ops[1]) not in set(blk_value(P).values())}
     inv = [x for x in inv if rc.loop_of(x.block) in file_loops and rc.loop_of(x.block) not in del_loops and not any(a.startswith('state->opt.') for a, p in guards_of(rc, x))]
     if not inv:
-        raise AnalysisBroken('state_read_content: invalidation under clear_past_hash not found')
+        # no clearing tied to clear_past_hash at all in the file-block loop: that is R-C07-3d's violation; say so here too instead of giving up
+        rep.check(False, rid, 'past-hash clearing of CHG blocks is tied to clear_past_hash', rc.file, 'no hash_invalid_set(block->hash) guarded by clear_past_hash in the loop that restores file blocks', function='state_read_content', construct='clearing not under clear_past_hash')
+        return
     for x in inv:
         g = guards_of(rc, x, expand=True)
         spared = any('hash_is_zero' in a and p is False for a, p in g)
